@@ -419,6 +419,8 @@ FUNCTIONALS = {
     "solve_ivp:rk4": Functional("solve_ivp:rk4", core_ivp, 2, _run_ivp("rk4")),
     "solve_ivp:rk45": Functional("solve_ivp:rk45", core_ivp, 2, _run_ivp("rk45")),
     "solve_ivp:euler": Functional("solve_ivp:euler", core_ivp, 2, _run_ivp("euler")),
+    "solve_ivp:rk23": Functional("solve_ivp:rk23", core_ivp, 2, _run_ivp("rk23")),
+    "solve_ivp:rk38": Functional("solve_ivp:rk38", core_ivp, 2, _run_ivp("rk38")),
     "quad:7": Functional("quad:7", core_quad, 1, _run_quad(7)),
     "quad:20": Functional("quad:20", core_quad, 1, _run_quad(20)),
     "jac:mv": Functional("jac:mv", core_root, 1, _run_jac("mv")),
